@@ -212,7 +212,9 @@ Record peer := { pid : N; pdist : N; has_id : bool; self_id : bool; self_addr : 
 
 Inductive fkind := KNode | KValue.
 
-Record fparams := { fp_kind : fkind; fp_key_is_self : bool; fp_maxres : nat; fp_cap : option nat }.
+(* fp_stalepop = true: the done-callback before the fix removes whatever entry running_probes holds for the peer,
+   kept for the _refuted lemma; false: a finished task only removes its OWN entry *)
+Record fparams := { fp_kind : fkind; fp_key_is_self : bool; fp_maxres : nat; fp_cap : option nat; fp_stalepop : bool }.
 
 Record fstate := {
   f_active : list peer;            (* OrderedDict sorted by distance *)
@@ -224,12 +226,14 @@ Record fstate := {
   f_pages : list (N * nat);        (* peer_pages *)
   f_disc : list (N * list bytes);  (* discovered_peers *)
   f_sched : nat;                   (* ghost: probes ever scheduled *)
-  f_seeds : nat                    (* ghost: id-less shortlist entries probed by the constructor *)
+  f_seeds : nat;                   (* ghost: id-less shortlist entries probed by the constructor *)
+  f_task : list (N * nat);         (* running_probes values: which probe task (numbered by f_sched) owns the entry *)
+  f_pending : list (N * nat)       (* ghost: probe tasks whose result has not been processed yet *)
 }.
 
 Definition f_init : fstate :=
   {| f_active := []; f_contacted := []; f_running := []; f_on := false; f_yielded := []; f_blob := [];
-     f_pages := []; f_disc := []; f_sched := 0; f_seeds := 0 |}.
+     f_pages := []; f_disc := []; f_sched := 0; f_seeds := 0; f_task := []; f_pending := [] |}.
 
 Inductive vitem := VB (bs : bytes) | VJunk.
 
@@ -242,7 +246,7 @@ Inductive fout :=
 Inductive fev :=
 | EInit (shortlist : list peer)
 | EStart (good : list N)
-| EDone (p : N) (good : list N)
+| EDone (p : N) (tid : nat) (good : list N)
 | EFail (p : N)
 | ECrash (p : N)
 | ENotConnected (p : N)
@@ -263,7 +267,7 @@ Fixpoint ins_active (p : peer) (l : list peer) : list peer :=
 Definition set_active (st : fstate) (a : list peer) : fstate :=
   {| f_active := a; f_contacted := f_contacted st; f_running := f_running st; f_on := f_on st;
      f_yielded := f_yielded st; f_blob := f_blob st; f_pages := f_pages st; f_disc := f_disc st;
-     f_sched := f_sched st; f_seeds := f_seeds st |}.
+     f_sched := f_sched st; f_seeds := f_seeds st; f_task := f_task st; f_pending := f_pending st |}.
 
 (* _add_active *)
 Definition add_active (st : fstate) (p : peer) (force bad : bool) : fstate :=
@@ -277,11 +281,20 @@ Definition add_active (st : fstate) (p : peer) (force bad : bool) : fstate :=
 Definition reset_closest (st : fstate) (p : N) : fstate :=
   set_active st (filter (fun q => negb (pid q =? p)) (f_active st)).
 
+Fixpoint assoc_nat (k : N) (l : list (N * nat)) : nat :=
+  match l with [] => O | (k', v) :: r => if k' =? k then v else assoc_nat k r end.
+Fixpoint assoc_set_nat (k : N) (v : nat) (l : list (N * nat)) : list (N * nat) :=
+  match l with [] => [(k, v)] | (k', v') :: r => if k' =? k then (k', v) :: r else (k', v') :: assoc_set_nat k v r end.
+Fixpoint assoc_opt (k : N) (l : list (N * nat)) : option nat :=
+  match l with [] => None | (k', v) :: r => if k' =? k then Some v else assoc_opt k r end.
+Definition assoc_del (k : N) (l : list (N * nat)) : list (N * nat) := filter (fun kv => negb (fst kv =? k)) l.
+
 (* _schedule_probe *)
 Definition schedule (st : fstate) (p : N) (seed : bool) : fstate :=
   {| f_active := f_active st; f_contacted := addN p (f_contacted st); f_running := addN p (f_running st);
      f_on := f_on st; f_yielded := f_yielded st; f_blob := f_blob st; f_pages := f_pages st;
-     f_disc := f_disc st; f_sched := S (f_sched st); f_seeds := if seed then S (f_seeds st) else f_seeds st |}.
+     f_disc := f_disc st; f_sched := S (f_sched st); f_seeds := if seed then S (f_seeds st) else f_seeds st;
+     f_task := assoc_set_nat p (f_sched st) (f_task st); f_pending := assoc_set_nat p (f_sched st) (f_pending st) |}.
 
 (* the loop of _search_round over active.keys() *)
 Fixpoint round_loop (l : list peer) (idx : nat) (st : fstate) (added : nat) (outs : list fout)
@@ -305,7 +318,7 @@ Definition put_result (prm : fparams) (st : fstate) (good : list N) (finish : bo
   let st' := if is_nil to_yield then st else
     {| f_active := f_active st; f_contacted := f_contacted st; f_running := f_running st; f_on := f_on st;
        f_yielded := f_yielded st ++ to_yield; f_blob := f_blob st; f_pages := f_pages st; f_disc := f_disc st;
-       f_sched := f_sched st; f_seeds := f_seeds st |} in
+       f_sched := f_sched st; f_seeds := f_seeds st; f_task := f_task st; f_pending := f_pending st |} in
   (st', (if is_nil to_yield then [] else [OYield to_yield]) ++ (if finish then [OFinish] else [])).
 
 (* search_exhausted *)
@@ -324,18 +337,20 @@ Definition search_round (prm : fparams) (st : fstate) (good : list N) : fstate *
 Definition set_on_running (st : fstate) (on : bool) (r : list N) : fstate :=
   {| f_active := f_active st; f_contacted := f_contacted st; f_running := r; f_on := on;
      f_yielded := f_yielded st; f_blob := f_blob st; f_pages := f_pages st; f_disc := f_disc st;
-     f_sched := f_sched st; f_seeds := f_seeds st |}.
+     f_sched := f_sched st; f_seeds := f_seeds st; f_task := f_task st; f_pending := f_pending st |}.
 
 (* _aclose *)
-Definition aclose (st : fstate) : fstate * list fout := (set_on_running st false [], [OFinish]).
+Definition set_tasks (st : fstate) (t pd : list (N * nat)) : fstate :=
+  {| f_active := f_active st; f_contacted := f_contacted st; f_running := f_running st; f_on := f_on st;
+     f_yielded := f_yielded st; f_blob := f_blob st; f_pages := f_pages st; f_disc := f_disc st;
+     f_sched := f_sched st; f_seeds := f_seeds st; f_task := t; f_pending := pd |}.
+
+(* _aclose: every probe task is cancelled *)
+Definition aclose (st : fstate) : fstate * list fout := (set_tasks (set_on_running st false []) [] [], [OFinish]).
 
 Definition add_contacts (st : fstate) (cs : list (peer * bool)) : fstate :=
   fold_left (fun s cb => add_active s (fst cb) false (snd cb)) cs st.
 
-Fixpoint assoc_nat (k : N) (l : list (N * nat)) : nat :=
-  match l with [] => O | (k', v) :: r => if k' =? k then v else assoc_nat k r end.
-Fixpoint assoc_set_nat (k : N) (v : nat) (l : list (N * nat)) : list (N * nat) :=
-  match l with [] => [(k, v)] | (k', v') :: r => if k' =? k then (k', v) :: r else (k', v') :: assoc_set_nat k v r end.
 Fixpoint assoc_bl (k : N) (l : list (N * list bytes)) : list bytes :=
   match l with [] => [] | (k', v) :: r => if k' =? k then v else assoc_bl k r end.
 Fixpoint assoc_set_bl (k : N) (v : list bytes) (l : list (N * list bytes)) : list (N * list bytes) :=
@@ -357,15 +372,22 @@ Fixpoint scan_values (raw : list vitem) (acc : list bytes) : dres * list bytes :
 Definition set_paging (st : fstate) (contacted : list N) (pages : list (N * nat)) (d : list (N * list bytes)) : fstate :=
   {| f_active := f_active st; f_contacted := contacted; f_running := f_running st; f_on := f_on st;
      f_yielded := f_yielded st; f_blob := f_blob st; f_pages := pages; f_disc := d;
-     f_sched := f_sched st; f_seeds := f_seeds st |}.
+     f_sched := f_sched st; f_seeds := f_seeds st; f_task := f_task st; f_pending := f_pending st |}.
 
 Definition set_blob (st : fstate) (b : list bytes) : fstate :=
   {| f_active := f_active st; f_contacted := f_contacted st; f_running := f_running st; f_on := f_on st;
      f_yielded := f_yielded st; f_blob := b; f_pages := f_pages st; f_disc := f_disc st;
-     f_sched := f_sched st; f_seeds := f_seeds st |}.
+     f_sched := f_sched st; f_seeds := f_seeds st; f_task := f_task st; f_pending := f_pending st |}.
 
 (* result tag: 0 ok, 1 reply discarded (invalid address), 2 the probe task dies with an uncaught exception *)
-Definition fstep (prm : fparams) (st : fstate) (ev : fev) : fstate * list fout * N :=
+(* done-callback of probe task `tid` of peer p: it removes the peer's running_probes entry if that entry is its own *)
+Definition done_state (prm : fparams) (st : fstate) (p : N) (tid : nat) : fstate :=
+  let own := match assoc_opt p (f_task st) with Some t => Nat.eqb t tid | None => false end in
+  if own || fp_stalepop prm
+  then set_tasks (set_on_running st (f_on st) (removeN p (f_running st))) (assoc_del p (f_task st)) (f_pending st)
+  else st.
+
+Definition fstep_core (prm : fparams) (st : fstate) (ev : fev) : fstate * list fout * N :=
   match ev with
   | EInit sl =>
       let '(st', outs) := fold_left (fun so p =>
@@ -374,8 +396,8 @@ Definition fstep (prm : fparams) (st : fstate) (ev : fev) : fstate * list fout *
       (st', outs, 0)
   | EStart good =>
       let '(st', outs) := search_round prm (set_on_running st true (f_running st)) good in (st', outs, 0)
-  | EDone p good =>
-      let st1 := set_on_running st (f_on st) (removeN p (f_running st)) in
+  | EDone p tid good =>
+      let st1 := done_state prm st p tid in
       if f_on st then let '(st', outs) := search_round prm st1 good in (st', outs, 0) else (st1, [], 0)
   | EFail p => (reset_closest st p, [], 0)
   | ECrash _ => (st, [], 2)
@@ -412,6 +434,21 @@ Definition fstep (prm : fparams) (st : fstate) (ev : fev) : fstate * list fout *
           else (st2, [], 2)
       end
   end.
+
+(* the result of a probe has been processed: it is no longer pending *)
+Definition settle_pending (st : fstate) (ev : fev) : fstate :=
+  match ev with
+  | EFail p | ECrash p | ENotConnected p => set_tasks st (f_task st) (assoc_del p (f_pending st))
+  | ENodeReply p _ _ _ _ _ | EValueReply p _ _ _ _ _ => set_tasks st (f_task st) (assoc_del (pid p) (f_pending st))
+  | _ => st
+  end.
+
+Definition fstep (prm : fparams) (st : fstate) (ev : fev) : fstate * list fout * N :=
+  let '(st', outs, tag) := fstep_core prm st ev in (settle_pending st' ev, outs, tag).
+
+(* the done-callback of a task runs after the task's result has been processed *)
+Definition ev_wf (st : fstate) (ev : fev) : Prop :=
+  match ev with EDone p tid _ => assoc_opt p (f_pending st) <> Some tid | _ => True end.
 
 Fixpoint frun (prm : fparams) (st : fstate) (evs : list fev) : fstate * list (list fout * N) :=
   match evs with
@@ -483,3 +520,23 @@ Definition find_value_reply_size (contacts : option (list (nat * N))) (compacts 
       + match compacts with Some c => sz_bytes 48 + (2 + c * sz_bytes 54) | None => O end
       + (sz_bytes 1 + sz_int pages) in                                (* p *)
   2 + (sz_int 0 + sz_int 1) + (sz_int 1 + sz_bytes 20) + (sz_int 2 + sz_bytes 48) + (sz_int 3 + result).
+
+(* KademliaRPC.store: the announced tcp port must be one a peer address can carry (same range as KademliaPeer) *)
+Definition store_port_ok (port : N) : bool := ((1024 <=? port) && (port <=? 65535))%N.
+Definition mk_compact_addr (ip : bytes) (port : N) (id : bytes) : bytes := ip ++ be_encode 2 port ++ id.
+
+(* PingQueue.enqueue_maybe_ping: contact -> time of its verification ping; a later request never postpones it *)
+Definition pq := list (N * Z).
+Fixpoint pq_get (q : pq) (p : N) : option Z :=
+  match q with [] => None | (k, t) :: r => if (k =? p)%N then Some t else pq_get r p end.
+Fixpoint pq_enqueue (q : pq) (p : N) (at_ : Z) : pq :=
+  match q with
+  | [] => [(p, at_)]
+  | (k, t) :: r => if (k =? p)%N then (k, if (at_ <? t)%Z then at_ else t) :: r else (k, t) :: pq_enqueue r p at_
+  end.
+(* PingQueue._process: the first contact (in insertion order) whose time has come *)
+Fixpoint pq_pop_due (q : pq) (now : Z) : option N * pq :=
+  match q with
+  | [] => (None, [])
+  | (k, t) :: r => if (t <=? now)%Z then (Some k, r) else let '(o, r') := pq_pop_due r now in (o, (k, t) :: r')
+  end.
